@@ -832,3 +832,121 @@ Proof.
   apply IH; auto.
   pose proof (step_spec (base X) st f Hi (contract_valid _ _ _ _ C0)) as (I1 & _). exact I1.
 Qed.
+
+(* ====================================================================== *)
+(* exactness of the two selectors *)
+
+(* the selector of F4cap is exact: on the tree as it is (F4 i-iii repaired, valid
+   names) a call raises "Exceeding max tracks" if and only if the selector fires *)
+Lemma add_new_x_fires : forall X m want tids k, length want = length tids ->
+  cap_of X = Some k -> fix_cap X = false ->
+  (0 <? count_true want) && (k + 1 <? m + count_true want) = true ->
+  add_new_x X want tids (seq 0 m) = None.
+Proof.
+  intros X m want tids k L Hc Hf E.
+  rewrite (add_new_x_asis X k Hc Hf), (cnt_count_true _ _ L), E. reflexivity.
+Qed.
+
+Theorem sel_cap_exact : forall X st f m,
+  names_ok X = true -> fix_iv X = false -> fix_cap X = false -> repaired (base X) -> cur st = seq 0 m ->
+  (sel_cap X st f = true <-> xstep X st f = (st, Raise ExcErr)).
+Proof.
+  intros X st f m Hn Hiv Hf (F1 & F2 & F3) Hc. split.
+  - intros Hs.
+    destruct (cap_of X) as [k|] eqn:Ek.
+    2:{ unfold sel_cap in Hs. rewrite Ek, andb_false_r in Hs. discriminate. }
+    unfold sel_cap in Hs. rewrite Hf, Ek, Hc, seq_length in Hs. cbn [negb andb] in Hs.
+    destruct f as [[ds M] ans].
+    destruct (names_ok_split X Hn) as (N1 & N2 & N3 & N4).
+    unfold xstep. rewrite N1, N2, N3, N4, Hiv. cbn [negb andb].
+    set (n := length ds) in *. set (none := repeat (@None nat) n) in *.
+    assert (Ln : length none = n) by (subst none; apply repeat_length).
+    assert (Er : scores_raise (base X) st n = false).
+    { unfold scores_raise. rewrite F3. destruct (red_max (base X)); reflexivity. }
+    unfold need in Hs. fold n in Hs. fold none in Hs.
+    destruct (is_init (base X) st) eqn:Ei.
+    + rewrite Hc. rewrite (add_new_x_fires X m _ none k); auto.
+      destruct (lq (base X)); [rewrite map_length; auto | rewrite want_fw_length; auto].
+    + rewrite Er.
+      destruct ans as [|p]; [simpl in Hs; discriminate Hs|].
+      destruct (guard (base X) p) eqn:Eg; [|rewrite Hiv in Hs; simpl in Hs; discriminate Hs].
+      assert (El : lq (base X) = true).
+      { unfold cap_of in Ek. destruct (lq (base X)); [reflexivity | discriminate]. }
+      rewrite El in *. rewrite F2. rewrite Hc.
+      rewrite (add_new_x_fires X m _ (assign p none) k); auto.
+      rewrite want_lq_length, assign_length. auto.
+  - intros E.
+    destruct (sel_cap X st f) eqn:Hs; [reflexivity|]. exfalso.
+    assert (Hcap : cap_asis_or_none X) by (right; exact Hf).
+    rewrite (xstep_silent X st f m Hn Hiv Hcap Hc Hs) in E.
+    destruct f as [[ds M] ans]. unfold step in E.
+    destruct (is_init (base X) st).
+    + destruct (add_new _ _ _). inversion E.
+    + destruct (scores_raise _ _ _); [inversion E|].
+      destruct ans; [inversion E|].
+      destruct (guard _ _); [|inversion E].
+      destruct (lq (base X)).
+      * destruct (fix_ii (base X)); [destruct (add_new _ _ _); inversion E|].
+        destruct (unmatched _ _); inversion E.
+      * destruct (unmatched _ _); [inversion E|]. destruct (add_new _ _ _). inversion E.
+Qed.
+
+(* the selector of F4iv is exact too: where the cap is silent, a call is complete
+   if and only if the matcher did not answer "no pair" on a frame holding a
+   detection above the threshold *)
+Lemma in_combine_repeat_none : forall (us : list nat) n u t,
+  In (u, Some t) (combine us (repeat (@None nat) n)) -> False.
+Proof.
+  induction us as [|x us IH]; intros [|n] u t H; simpl in H; try contradiction.
+  destruct H as [H|H]; [discriminate | eapply IH; eauto].
+Qed.
+
+Lemma output_none_no_track : forall cfg ds n u t,
+  In (u, Some t) (output cfg ds (repeat None n)) -> False.
+Proof.
+  intros cfg ds n u t H. unfold output in H. destruct (lq cfg).
+  - eapply in_combine_repeat_none; eauto.
+  - apply filter_In in H. destruct H as [H _]. eapply in_combine_repeat_none; eauto.
+Qed.
+
+Theorem sel_iv_exact : forall X st f,
+  names_ok X = true -> fix_iv X = false -> cap_asis_or_none X -> repaired (base X) ->
+  Inv (base X) st -> sel_cap X st f = false ->
+  contract_step (base X) (st, f, snd (xstep X st f)) ->
+  (sel_iv X st f = false <-> ok_complete (st, f, snd (xstep X st f))).
+Proof.
+  intros X st f Hn Hiv Hcap R Hi Hs C.
+  pose proof R as (F1 & F2 & F3).
+  rewrite (xstep_silent X st f (length (cur st)) Hn Hiv Hcap (proj1 Hi) Hs) in *.
+  assert (Er : scores_raise (base X) st (length (f_dets f)) = false).
+  { unfold scores_raise. rewrite F3. destruct (red_max (base X)); reflexivity. }
+  pose proof (contract_valid _ _ _ _ C) as V.
+  pose proof (repaired_no_defect _ _ R C) as Q.
+  unfold no_defect_fires, t_state, t_frame in Q. simpl fst in Q. simpl snd in Q.
+  unfold ok_complete, t_out, t_frame. simpl fst. simpl snd.
+  unfold sel_iv. rewrite Hiv, Er. cbn [negb andb].
+  destruct (is_init (base X) st) eqn:Ei.
+  - cbn [negb andb]. split; [intros _|reflexivity].
+    apply step_complete; [exact Hi | exact V | |].
+    + intros U. unfold answer_used in U. rewrite Ei in U. discriminate U.
+    + intros U. rewrite Ei in U. discriminate U.
+  - cbn [negb andb].
+    destruct (Q Ei) as (_ & p & Ea & _). rewrite Ea.
+    destruct p as [|rc p'].
+    + (* no pair *)
+      destruct f as [[ds M] ans]. unfold f_answer in Ea. simpl in Ea. subst ans.
+      unfold f_dets. simpl fst.
+      unfold step. rewrite Ei. unfold f_dets in Er. simpl fst in Er. rewrite Er.
+      rewrite (guard_fix_i _ _ F1). cbn [length Nat.ltb Nat.leb snd].
+      split.
+      * intros Hx. eexists. split; [reflexivity|]. intros u Hu. exfalso.
+        assert (K : existsb snd ds = true) by (apply existsb_exists; exists (u, true); auto).
+        congruence.
+      * intros (out & Eo & Cp). inversion Eo; subst out.
+        destruct (existsb snd ds) eqn:Ex; [|reflexivity]. exfalso.
+        apply existsb_exists in Ex. destruct Ex as [[u a] [Hu Ha]]. simpl in Ha. subst a.
+        destruct (Cp u Hu) as [t Ht]. eapply output_none_no_track; eauto.
+    + split; [intros _|reflexivity].
+      apply step_complete; [exact Hi | exact V | | exact Q].
+      intros U q Eq Eq0. rewrite Ea, Eq0 in Eq. discriminate Eq.
+Qed.
